@@ -178,19 +178,10 @@ func (i Int128) AsBigFloat() (b *big.Float) {
 
 // AsFloat64 returns the Int128 as a float64.
 func (i Int128) AsFloat64() float64 {
-	switch {
-	case i.hi == 0:
-		if i.lo == 0 {
-			return 0
-		}
-		return float64(i.lo)
-	case i.hi == math.MaxUint64:
-		return -float64((^i.lo) + 1)
-	case i.hi&signBit == 0:
-		return (float64(i.hi) * maxUint64Float) + float64(i.lo)
-	default:
-		return (-float64(^i.hi) * maxUint64Float) + -float64(^i.lo)
+	if i.hi&signBit != 0 {
+		return -i.AbsUint128().AsFloat64()
 	}
+	return Uint128(i).AsFloat64()
 }
 
 // IsUint128 returns true if this value can be represented as an Uint128 without any loss.
